@@ -275,6 +275,7 @@ package elasticsearch
 // required, but an empty list element is not rejected by config validation).
 
 //@ func prepareEndpoints
+//@   option check-nil yes
 //@   pure
 //@   requires forall k :: 0 <= k && k < len(endpoints) ==> len(endpoints[k]) > 0
 //@   ensures len(result) == len(endpoints)
